@@ -243,18 +243,27 @@ func h1iSettle(marker string, before map[string]string, want func(string) bool, 
 
 // --- the black box run by the harness on the whole input
 
+// h1iSrc answers like streamConnection.Read: at most the rest of ONE Dispatch buffer per call (what fasthttp makes of a
+// message can depend on how it arrives: a folded header line cut in two is refused, the whole is accepted)
 type h1iSrc struct {
-	data []byte
-	pos  int
+	segs [][]byte
+	cur  int
+	off  int
+	pos  int // bytes handed out
 	hit  bool
 }
 
 func (s *h1iSrc) Read(p []byte) (int, error) {
-	if s.pos >= len(s.data) {
+	for s.cur < len(s.segs) && s.off >= len(s.segs[s.cur]) {
+		s.cur++
+		s.off = 0
+	}
+	if s.cur >= len(s.segs) {
 		s.hit = true
 		return 0, io.EOF
 	}
-	n := copy(p, s.data[s.pos:])
+	n := copy(p, s.segs[s.cur][s.off:])
+	s.off += n
 	s.pos += n
 	return n, nil
 }
@@ -266,8 +275,12 @@ func h1iEff(L int) int {
 	return L
 }
 
-func h1iRef(side string, data []byte, L, B int) string {
-	src := &h1iSrc{data: data}
+func h1iRef(side string, segs [][]byte, L, B int) string {
+	var data []byte
+	for _, g := range segs {
+		data = append(data, g...)
+	}
+	src := &h1iSrc{segs: segs}
 	br := bufio.NewReaderSize(src, h1iEff(L))
 	var pre, post []string
 	ended := false // the reader has answered io.EOF: the real call blocks there; what follows is what the peer's close makes of it
@@ -352,7 +365,7 @@ type h1iOut struct {
 	ev1, disp string
 }
 
-func h1iOnce(side string, L, B int, segs [][]byte) h1iOut {
+func h1iOnce(side string, L, B int, segs [][]byte, settle time.Duration) h1iOut {
 	total := 0
 	for _, s := range segs {
 		total += len(s)
@@ -453,7 +466,7 @@ func h1iOnce(side string, L, B int, segs [][]byte) h1iOut {
 		}
 	}
 	// (a parser that allocates 2 GiB for an announced length keeps serve running for seconds)
-	state1 := h1iSettle(marker, before, func(s string) bool { return s != "busy" && s != "" }, 8*time.Second)
+	state1 := h1iSettle(marker, before, func(s string) bool { return s != "busy" && s != "" }, settle)
 	if state1 == "gone" && conn.State() != api.ConnClosed {
 		// a serve goroutine that died of a panic is followed by its recover handler on another goroutine
 		time.Sleep(4 * time.Millisecond)
@@ -730,8 +743,6 @@ func h1dispCases(c *hx.Ctx) {
 			m := h1iMsg(first, []string{"Host: c08.test", "Transfer-Encoding: chunked"}, ch)
 			if !huge(ch[:strings.IndexAny(ch+"\r", "\r\n;")], 16) {
 				around("bad-chunk", 0, 0, m)
-			} else if side == "srv" && strings.HasPrefix(ch, "80000001") {
-				add(side, 0, 0, "-", "huge-chunk-no-limit", m)
 			}
 			if side == "srv" {
 				around("bad-chunk", 0, 16, m)
@@ -803,12 +814,12 @@ func h1dispCases(c *hx.Ctx) {
 			c.Count("h1disp.skipped-after-hangs")
 			continue
 		}
-		var all []byte
-		for _, s := range j.segs {
-			all = append(all, s...)
+		script := h1iRef(j.side, j.segs, j.L, j.B)
+		settle := 8 * time.Second
+		if strings.Contains(script, "p") {
+			settle = 90 * time.Second // the black box allocated 2 GiB before it panicked: the real one does the same
 		}
-		script := h1iRef(j.side, all, j.L, j.B)
-		o := h1iOnce(j.side, j.L, j.B, j.segs)
+		o := h1iOnce(j.side, j.L, j.B, j.segs, settle)
 		if o.bad {
 			stop++
 		}
